@@ -1,6 +1,7 @@
 import Fs.Core.Wire
 import Fs.Model.Split
 import Fs.Model.Gen
+import Fs.Model.Vars
 /-! Driver handler for the `split` model (C16). -/
 namespace Fs.Drv.Split
 open Fs.Wire Fs.Split Fs.Lex
@@ -15,9 +16,19 @@ def encRun (r : Nat × List Nat × Option String) : String :=
 
 def handle : List String → String
   | ["count", text] =>
+    -- rawref: some `$$…$$` string holds `$word` text; execute_string re-renders it as `'…'`, where the variable phase may
+    -- see a reference that the `$$` spelling hid (`$$$usd$$` vs `'$usd'`): region of C16/dollar-string-rerender-exposes-reference
+    let rawref := match lex (decStr text) with
+      | some ts => ts.any fun t => match t with
+        | .raw b =>
+          let refs (t : List Char) := ((Fs.Vars.tokenize (.copy false) t).filter fun k => match k with | .ref _ => true | _ => false).length
+          -- the `'…'` spelling shows the variable phase a different number of references than the `$$…$$` spelling
+          refs ('\'' :: b ++ ['\'']) != refs ('$' :: '$' :: b ++ ['$', '$'])
+        | _ => false
+      | none => false
     match stmtCount (decStr text) with
-    | some n => s!"n={n}"
-    | none => "n=error"
+    | some n => s!"n={n}\trawref={encBool rawref}"
+    | none => s!"n=error\trawref={encBool rawref}"
   | ["run", flags] =>
     let ss := flags.toList
     let impl := execString parsesOf "parse" execOf 0 ss
